@@ -862,10 +862,10 @@ def explore(ctx, rng, scale):
             specv.append(v)
         else:
             kid = known_hang(s)
-            if r[0] == "T" and not kid and not bash_terminates(s):
+            if r[0] == "T" and not (kid and is_open(kid)) and not bash_terminates(s):
                 st["nonterminating_in_bash_too_or_inconclusive"] += 1
                 continue
-            if r[0] == "T" and not kid and _LOOPWORD.search(s):
+            if r[0] == "T" and not (kid and is_open(kid)) and _LOOPWORD.search(s):
                 # a script-level loop that never ends because brush evaluates its condition differently from bash is a
                 # semantic deviation (other properties), not a hang of the shell: the same script with every loop body
                 # cut short by `break` must still hang to count here
@@ -875,7 +875,7 @@ def explore(ctx, rng, scale):
                     st["loop_divergence"] = st.get("loop_divergence", 0) + 1
                     st.setdefault("loop_divergence_samples", []).append(s[:300])
                     continue
-            if r[0] == "C" and not kid:
+            if r[0] == "C" and not (kid and is_open(kid)):
                 # the process died (abort / OOM / exit): confirm through the CLI binary
                 rr = run_vbrush(ctx, [s], timeout=20)[0]
                 if rr[0] == "R":
@@ -909,10 +909,10 @@ def explore(ctx, rng, scale):
         elif r[0] == "T":
             st["timeouts"] += 1
             kid = known_hang(s)
-            if not kid and not bash_terminates(s):
+            if not (kid and is_open(kid)) and not bash_terminates(s):
                 st["nonterminating_in_bash_too_or_inconclusive"] += 1
                 continue
-            if not kid and _LOOPWORD.search(s) and run_vbrush(ctx, [deloop(s)], timeout=10)[0][0] != "T":
+            if not (kid and is_open(kid)) and _LOOPWORD.search(s) and run_vbrush(ctx, [deloop(s)], timeout=10)[0][0] != "T":
                 st["loop_divergence"] = st.get("loop_divergence", 0) + 1
                 continue
             v = {"input": {"script": s[:4000], "via": "vbrush -c"}, "why": "no exit within 10 s although bash finishes"}
